@@ -132,6 +132,9 @@ func c13Ops(maxBatch int, classes []string, cond bool) []nestOp {
 		for _, cl := range classes {
 			ops = append(ops, nestOp{"SetExpression(" + cl + ")", 0, []string{cl}, "setexpr"})
 		}
+		// the Stack the Condition already holds, offered once more in another guise (as an alias if it is held
+		// natively, natively otherwise; then through a pointer): a Stack like any other
+		ops = append(ops, nestOp{"SetExpression(the held Stack in another guise)", 0, []string{"alias"}, "setexpr-guise"}, nestOp{"SetExpression(pointer to the held Stack)", 0, []string{"ptr-stack"}, "setexpr-guise-ptr"})
 		return ops
 	}
 	ops = append(ops, nestOp{"Pop", 0, nil, "pop"}, nestOp{"SetPushPolicy(accept everything)", 0, nil, "pol-on"}, nestOp{"SetPushPolicy(nil)", 0, nil, "pol-off"})
@@ -349,8 +352,22 @@ func c13Machine(c *Ctx, kind string, maxL, maxBatch int, classes []string, cond 
 				if check && anyStack {
 					c.Nontrivial(name + "|" + o.name + "|" + fmt.Sprint(len(in.m)))
 				}
-			case "setexpr":
+			case "setexpr", "setexpr-guise", "setexpr-guise-ptr":
 				v, sl := in.mk(o.classes[0])
+				if held, ok := refAsStack(in.m[0]); ok && o.kind != "setexpr" && isStackLike(in.m[0]) {
+					switch {
+					case o.kind == "setexpr-guise-ptr":
+						h := held
+						v = &h
+					default:
+						if _, native := in.m[0].(stackage.Stack); native {
+							v = StackAlias(held)
+						} else {
+							v = held
+						}
+					}
+					sl = true
+				}
 				in.c.SetExpression(v)
 				if in.ro {
 					// read-only: the expression stays
